@@ -178,7 +178,7 @@ class Multisphere(ScatteringTheory):
 
         m = scatterer.n / medium_index
 
-        if (centers > 1e4).any():
+        if (np.abs(centers) > 1e4).any():
             raise InvalidScatterer(scatterer, "Particle separation "
                                         "too large, calculation would take forever")
         if self.suppress_fortran_output:
